@@ -11,7 +11,9 @@ use crate::engine::catch;
 use crate::engine::tape::Reader;
 use crate::stgen::ast::*;
 use crate::stgen::print::{print_program, PrintOpts};
-use crate::stgen::rt::{snapshot, Real};
+use crate::stgen::rt::{flatten, snapshot, Real};
+use trust_runtime::memory::VariableStorage;
+use trust_runtime::value::Value;
 use crate::stref::{flatten_state, CycleEnd, Machine, RefConfig};
 
 /// How the generated PROGRAM is instantiated (our own CONFIGURATION wrapper; stgen itself
@@ -206,12 +208,17 @@ pub struct Pos {
     pub thread: u32,
     pub start: u32,
     pub end: u32,
+    /// Index of the statement's event in the reference trace of its cycle (empty statements
+    /// counted; a label position shares the index of the statement it labels).
+    pub ev: usize,
 }
 
 pub struct World {
     pub source: String,
     /// Program with the instances in declaration order (what `rt::snapshot` needs).
     pub decl: Program,
+    /// The same program with the instances in execution order (what the reference runs).
+    pub ref_prog: Program,
     pub cfg: TaskCfg,
     pub inputs: Vec<CycleInput>,
     pub pos: Vec<Pos>,
@@ -888,7 +895,7 @@ pub fn prepare(
             }
         }
         let mut cur_inst: Option<usize> = None;
-        for ev in &out.trace {
+        for (ev_index, ev) in out.trace.iter().enumerate() {
             if empty.contains(&ev.stmt) {
                 continue;
             }
@@ -917,6 +924,7 @@ pub fn prepare(
                     thread: inst_thread[inst],
                     start: ls,
                     end: le,
+                    ev: ev_index,
                 });
             }
             pos.push(Pos {
@@ -927,6 +935,7 @@ pub fn prepare(
                 thread: inst_thread[inst],
                 start,
                 end,
+                ev: ev_index,
             });
         }
         if pos.len() > MAX_POSITIONS {
@@ -954,9 +963,11 @@ pub fn prepare(
         }
     }
     let all_stmts: Vec<u32> = loc_of.keys().copied().collect();
+    drop(m);
     Prep::Ready(Box::new(World {
         source,
         decl,
+        ref_prog,
         cfg: cfg.clone(),
         inputs,
         pos,
@@ -973,6 +984,102 @@ pub fn prepare(
         faulted,
         max_depth,
     }))
+}
+
+fn observe_value(value: &Value, storage: &VariableStorage, prog: &Program, depth: u32) -> Option<Val> {
+    if depth > 8 {
+        return None;
+    }
+    Some(match value {
+        Value::Bool(b) => Val::Bool(*b),
+        Value::SInt(v) => Val::Int(Elem::SInt, *v as i128),
+        Value::Int(v) => Val::Int(Elem::Int, *v as i128),
+        Value::DInt(v) => Val::Int(Elem::DInt, *v as i128),
+        Value::LInt(v) => Val::Int(Elem::LInt, *v as i128),
+        Value::USInt(v) => Val::Int(Elem::USInt, *v as i128),
+        Value::UInt(v) => Val::Int(Elem::UInt, *v as i128),
+        Value::UDInt(v) => Val::Int(Elem::UDInt, *v as i128),
+        Value::ULInt(v) => Val::Int(Elem::ULInt, *v as i128),
+        Value::Real(v) => Val::Real(v.to_bits()),
+        Value::LReal(v) => Val::LReal(v.to_bits()),
+        Value::Time(d) => Val::Time(d.as_nanos()),
+        Value::Enum(e) => {
+            let TypeDecl::Enum { variants, name } = prog
+                .types
+                .iter()
+                .find(|t| t.name().eq_ignore_ascii_case(&e.type_name))?
+            else {
+                return None;
+            };
+            let i = variants
+                .iter()
+                .position(|v| v.eq_ignore_ascii_case(&e.variant_name))?;
+            Val::Enum(name.clone(), i as u32)
+        }
+        Value::Array(a) => {
+            let mut elems = Vec::with_capacity(a.elements.len());
+            for e in &a.elements {
+                elems.push(observe_value(e, storage, prog, depth + 1)?);
+            }
+            Val::Array {
+                dims: a.dimensions.clone(),
+                elems,
+            }
+        }
+        Value::Struct(st) => {
+            let mut fields = Vec::with_capacity(st.fields.len());
+            for (n, v) in &st.fields {
+                fields.push((n.to_string(), observe_value(v, storage, prog, depth + 1)?));
+            }
+            let ty = prog
+                .types
+                .iter()
+                .find(|t| t.name().eq_ignore_ascii_case(&st.type_name))
+                .map(|t| t.name().to_string())
+                .unwrap_or_else(|| st.type_name.to_string());
+            Val::Struct { ty, fields }
+        }
+        Value::Instance(id) => {
+            let inst = storage.get_instance(*id)?;
+            let mut vars = Vec::with_capacity(inst.variables.len());
+            for (n, v) in &inst.variables {
+                vars.push((n.to_string(), observe_value(v, storage, prog, depth + 1)?));
+            }
+            let ty = prog
+                .pous
+                .iter()
+                .find(|p| p.name.eq_ignore_ascii_case(&inst.type_name))
+                .map(|p| p.name.clone())
+                .unwrap_or_else(|| inst.type_name.to_string());
+            Val::Fb { ty, vars }
+        }
+        _ => return None,
+    })
+}
+
+/// Flatten a storage (e.g. the one of a `DebugSnapshot`) like `rt::snapshot` flattens the
+/// runtime's: globals under "G.", program instances under their name. A value outside the
+/// generated vocabulary is reported under `<path>.#unobservable`.
+pub fn flatten_storage(storage: &VariableStorage, prog: &Program) -> BTreeMap<String, Val> {
+    let mut out = BTreeMap::new();
+    for (name, value) in storage.globals() {
+        let is_instance = prog
+            .instances
+            .iter()
+            .any(|(inst, _)| inst.as_str() == name.as_str());
+        let prefix = if is_instance {
+            name.to_string()
+        } else {
+            format!("G.{name}")
+        };
+        match observe_value(value, storage, prog, 0) {
+            Some(v) => flatten(&prefix, &v, &mut out),
+            None => {
+                out.insert(format!("{prefix}.#unobservable"), Val::Bool(true));
+            }
+        }
+    }
+    out
 }
 
 fn show_stmt(id: u32) -> String {
@@ -1020,6 +1127,88 @@ impl World {
             (Some(a), Some(b)) => b.depth > a.depth && b.cycle == a.cycle,
             _ => false,
         }
+    }
+
+    /// Simulated time (ns) during cycle `c`.
+    pub fn time_in_cycle(&self, c: usize) -> i64 {
+        self.inputs
+            .iter()
+            .take(c + 1)
+            .map(|i| i.dt_ns.max(0))
+            .fold(0i64, |a, b| a.saturating_add(b))
+    }
+
+    /// State of the reference evaluator immediately before the statement at position `q`
+    /// executes (static variables only; FOR control variables, instance type names and
+    /// everything below an unobservable value excluded by the caller). The reference has no
+    /// stepping interface: the cycle is re-run with a step budget that runs out exactly at
+    /// the statement (found by bisection; the trace length is monotone in the budget).
+    pub fn reference_state_before(&self, q: usize) -> Option<BTreeMap<String, Val>> {
+        let target = self.pos.get(q)?;
+        let (c, ev) = (target.cycle, target.ev);
+        let run = |budget: Option<u64>| -> Option<(usize, u64, BTreeMap<String, Val>)> {
+            let mut m = Machine::new(
+                &self.ref_prog,
+                RefConfig {
+                    max_steps: 20_000,
+                    trace: true,
+                    trace_digests: false,
+                    ..RefConfig::default()
+                },
+            )
+            .ok()?;
+            for (k, input) in self.inputs.iter().enumerate().take(c + 1) {
+                for w in &input.writes {
+                    m.write_input(w).ok()?;
+                }
+                if k == c {
+                    if ev == 0 {
+                        return Some((0, 0, flatten_state(&m.state())));
+                    }
+                    if let Some(b) = budget {
+                        m.cfg.max_steps = b;
+                    }
+                }
+                let out = m.cycle();
+                if m.internal_error.is_some() {
+                    return None;
+                }
+                if k == c {
+                    return Some((out.trace.len(), out.steps, flatten_state(&m.state())));
+                }
+            }
+            None
+        };
+        if ev == 0 {
+            return run(None).map(|r| r.2);
+        }
+        // full cycle: how many ticks are loop iterations
+        let (events, steps, _) = run(None)?;
+        if events <= ev {
+            return None;
+        }
+        let slack = steps.saturating_sub(events as u64);
+        // smallest budget under which the statement itself is reached (its own tick passes);
+        // one less is the budget that runs out exactly at the statement, after everything
+        // before it - returns from calls and loop bookkeeping included - has happened
+        let (mut lo, mut hi) = (ev as u64 + 1, ev as u64 + 1 + slack);
+        let mut first = None;
+        while lo <= hi {
+            let mid = lo + (hi - lo) / 2;
+            let (len, _, _) = run(Some(mid))?;
+            if len > ev {
+                first = Some(mid);
+                hi = mid - 1;
+            } else {
+                lo = mid + 1;
+            }
+        }
+        let (len, _, state) = run(Some(first?.checked_sub(1)?))?;
+        (len == ev).then_some(state)
+    }
+
+    pub fn for_control_paths(&self) -> Vec<String> {
+        for_control_paths(&self.decl)
     }
 
     pub fn describe(&self, q: usize) -> String {
